@@ -1895,7 +1895,9 @@ func TestVerifC03(t *testing.T) {
 	c03Corpus(t, out)
 	ncases, nconc := 1000, 16
 	if verifh.Tier() == "thorough" {
-		ncases, nconc = 60000, 300
+		// sized so that the thorough tier ends well within an hour (the extracted monitor
+		// needs tens of milliseconds per history)
+		ncases, nconc = 15000, 100
 	}
 	for i := 0; i < ncases; i++ {
 		cr := rd.Fork()
